@@ -161,6 +161,8 @@ pub fn gen_case(rng: &mut Rng, reader_heavy: bool, thorough: bool) -> SchedCase 
 
 #[derive(Clone, Debug, PartialEq)]
 pub enum HRes {
+  /// not applicable (no handle / reader): not part of the history
+  Skipped,
   Ok,
   Index(u32),
   Read(Contents),
@@ -297,7 +299,7 @@ fn history_text(events: &[HEvent]) -> String {
   ev.iter()
     .map(|e| {
       let r = match &e.res {
-        HRes::Ok => "ok".to_string(),
+        HRes::Ok | HRes::Skipped => "ok".to_string(),
         HRes::Index(i) => format!("ok({})", i),
         HRes::Read(c) => format!("{:?}", contents_short(c)),
         HRes::Err(s) => format!("err({})", s),
@@ -394,28 +396,28 @@ pub fn run_case(case: &SchedCase, wroot: &Path, stats: &mut Stats) -> SchedRun {
                       }
                       TOp::Add { id, ver } => match writer.as_mut() {
                         Some(w) => HRes::Index(w.add_document(&make_doc(profile, id, *ver))?),
-                        None => HRes::Err("no writer".into()),
+                        None => HRes::Skipped,
                       },
                       TOp::Delete { id } => match writer.as_mut() {
                         Some(w) => {
                           w.delete_document(id)?;
                           HRes::Ok
                         }
-                        None => HRes::Err("no writer".into()),
+                        None => HRes::Skipped,
                       },
                       TOp::Commit => match writer.as_mut() {
                         Some(w) => {
                           w.commit()?;
                           HRes::Ok
                         }
-                        None => HRes::Err("no writer".into()),
+                        None => HRes::Skipped,
                       },
                       TOp::Rollback => match writer.as_mut() {
                         Some(w) => {
                           w.rollback()?;
                           HRes::Ok
                         }
-                        None => HRes::Err("no writer".into()),
+                        None => HRes::Skipped,
                       },
                       TOp::DropWriter => {
                         writer = None;
@@ -445,7 +447,7 @@ pub fn run_case(case: &SchedCase, wroot: &Path, stats: &mut Stats) -> SchedRun {
                           }
                           HRes::Read(c)
                         }
-                        None => HRes::Err("no reader".into()),
+                        None => HRes::Skipped,
                       },
                     })
                   }));
@@ -461,6 +463,9 @@ pub fn run_case(case: &SchedCase, wroot: &Path, stats: &mut Stats) -> SchedRun {
                   }
                 };
                 let ret = sched.stamp();
+                if res == HRes::Skipped {
+                  continue;
+                }
                 history.lock().unwrap().push(HEvent {
                   tid,
                   k,
